@@ -61,6 +61,31 @@ pub fn run(vec: &J, out: &mut Out) -> Result<(), String> {
                     near.push(id.chars().take(id.chars().count() - 1).collect());
                 }
                 near.push(format!("{id}x"));
+                // look-alike respellings: each character that has a Unicode twin / compatibility form replaced by it (micro
+                // sign - Greek mu, ohm sign - Greek omega, degree - ordinal / ring, superscripts - digits, increment - delta,
+                // underscore - space / hyphen, slash - division slash, full-width ASCII), one substitution class at a time
+                const TWINS: &[(char, &[char])] = &[
+                    ('\u{b5}', &['\u{3bc}']), ('\u{3bc}', &['\u{b5}']), ('\u{2126}', &['\u{3a9}']), ('\u{3a9}', &['\u{2126}']),
+                    ('\u{b0}', &['\u{ba}', '\u{2da}']), ('\u{b2}', &['2']), ('\u{b3}', &['3']), ('2', &['\u{b2}']), ('3', &['\u{b3}']),
+                    ('\u{394}', &['\u{2206}']), ('\u{2206}', &['\u{394}']), ('_', &[' ', '-']), ('/', &['\u{2215}', '\u{2044}']),
+                    ('$', &['\u{ff04}']), ('%', &['\u{ff05}']), ('\u{20ac}', &['E']), ('\u{a3}', &['\u{20a4}']),
+                    ('\u{2082}', &['2']), ('\u{e9}', &['e']),
+                ];
+                for (from, tos) in TWINS {
+                    if id.contains(*from) {
+                        for to in tos.iter() {
+                            near.push(id.replace(*from, &to.to_string()));
+                        }
+                    }
+                }
+                if id.is_ascii() && !id.is_empty() {
+                    // full-width form of the first character
+                    let mut cs: Vec<char> = id.chars().collect();
+                    if let Some(fw) = char::from_u32(cs[0] as u32 + 0xfee0) {
+                        cs[0] = fw;
+                        near.push(cs.into_iter().collect());
+                    }
+                }
                 for n in near {
                     if &n != id {
                         out.emit(lookup_event(&n));
@@ -118,6 +143,19 @@ pub fn rec(out: &mut Out, seed: u64, full: bool) {
             }
         }
         out.emit(json!({"op":"units.muldiv","a":sym(a),"results":md,"pairs":units.len()}));
+        // Number + and - of this unit with every unit: which sums are accepted, and the unit they carry
+        let mut accepted = Vec::new();
+        for b in units.iter() {
+            let (na, nb) = (Number { value: 3.0, unit: Some(*a) }, Number { value: 2.0, unit: Some(*b) });
+            for (name, r) in [("add", guarded(|| na + nb)), ("sub", guarded(|| na - nb))] {
+                match r {
+                    Ok(Ok(n)) => accepted.push(json!([sym(b), name, "ok", n.unit.map(|u| sym(u)).unwrap_or(json!([]))])),
+                    Ok(Err(_)) => {}
+                    Err(_) => accepted.push(json!([sym(b), name, "panic", []])),
+                }
+            }
+        }
+        out.emit(json!({"op":"units.addsub","a":sym(a),"accepted":accepted,"pairs":units.len()}));
     }
     // Number arithmetic over a few units x magnitudes
     let pick: Vec<Option<&'static Unit>> = vec![None, get_unit("m"), get_unit("s"), get_unit("kWh"), get_unit("h"), get_unit("°F"), get_unit("kW")];
